@@ -355,7 +355,8 @@ def check_cases(ctx, im, cases, fresh_cache=None):
 # ---------------------------------------------------------------------------------------------
 # generators
 TOP = ['a.txt', 'b', 'c.tar.gz', '.hid', 'n\nl.t', 'ü|n"m.txt', ' sp ace.x', 'q.', 'README.TXT', 'w\\v.y', "#'x,y;.z"]
-NESTED = ['sub/x.txt', 'sub/y', 'sub/deep/z.txt', 'sab/w.bin', 'sub/a.txt', 'z/.k.e', 'sub/ü.d/n', 'A/b']
+NESTED = ['sub/x.txt', 'sub/y', 'sub/deep/z.txt', 'sab/w.bin', 'sub/a.txt', 'z/.k.e', 'sub/ü.d/n', 'A/b',
+          'sub2/k.txt', 'sub_old/deep/q', 'sub/deep2/r', 'A/b2/c']     # sibling folders whose names share a prefix
 CONTENTS = [b'', b'A', b'B', b'AA', b'hello\n', b'\x00\xff|"', b'A' * 70000]
 
 
@@ -421,6 +422,10 @@ def gen_history(rng, modify=False):
 
 
 CORPUS = [
+    # a whole folder deleted while a sibling folder whose name extends its name still exists: only the deleted folder's rows go
+    {'tree': {'sub/x.txt': '41', 'sub/y': '42', 'sub2/k.txt': '43', 'sub_old/deep/q': '44', 'sub/deep/z.txt': '45', 'sub/deep2/r': '46'},
+     'ops': [['del', 'sub/x.txt', ''], ['del', 'sub/y', ''], ['del', 'sub/deep/z.txt', ''], ['r', '', '']]},
+    {'tree': {'A/b': '41', 'A/b2/c': '42', 'keep': '43'}, 'ops': [['del', 'A/b', ''], ['r', '', ''], ['ar', '', '']]},
     # a deleted file whose name is taken over by a directory: its row must go (the path is not a file any more)
     {'tree': {'sub': '41', 'keep.txt': '42'}, 'ops': [['del', 'sub', ''], ['add', 'sub/x.txt', '43'], ['ar', '', '']]},
     {'tree': {'sub': '41'}, 'ops': [['del', 'sub', ''], ['add', 'sub/deep/z.txt', '43'], ['r', '', '']]},
